@@ -30,7 +30,12 @@ func (m maxDistance) negative() distance        { return maxDistance(s1.InfChord
 func (m maxDistance) infinity() distance        { return maxDistance(s1.NegativeChordAngle) }
 func (m maxDistance) less(other distance) bool  { return m.chordAngle() > other.chordAngle() }
 func (m maxDistance) sub(other distance) distance {
-	return maxDistance(m.chordAngle() + other.chordAngle())
+	// Add on the sphere (clamping at 180 degrees), not on the squared chord
+	// lengths: a plain float addition can exceed the largest valid value.
+	if m.chordAngle().IsInfinity() || m.chordAngle() < 0 {
+		return m
+	}
+	return maxDistance(m.chordAngle().Add(other.chordAngle()))
 }
 func (m maxDistance) chordAngleBound() s1.ChordAngle {
 	return s1.StraightChordAngle - m.chordAngle()
